@@ -110,14 +110,15 @@ func (f UpdateHandlerFunc) HandleUpdate(s *channel.State, u ChannelUpdate, r *Up
 
 // Accept accepts the channel update.
 func (r *UpdateResponder) Accept(ctx context.Context) error {
-	defer r.signalDone()
-
 	if ctx == nil {
+		r.signalDone()
 		return errors.New("context must not be nil")
 	}
 	if !r.called.TrySet() {
+		// The first call signals when it is done; it may still be running.
 		return errors.New("multiple calls on channel update responder")
 	}
+	defer r.signalDone()
 
 	return r.channel.acceptUpdate(ctx, r.pidx, r.req)
 }
@@ -133,14 +134,15 @@ func (r *UpdateResponder) signalDone() {
 
 // Reject rejects the channel update.
 func (r *UpdateResponder) Reject(ctx context.Context, reason string) error {
-	defer r.signalDone()
-
 	if ctx == nil {
+		r.signalDone()
 		return errors.New("context must not be nil")
 	}
 	if !r.called.TrySet() {
+		// The first call signals when it is done; it may still be running.
 		return errors.New("multiple calls on channel update responder")
 	}
+	defer r.signalDone()
 
 	return r.channel.rejectUpdate(ctx, r.pidx, r.req, reason)
 }
